@@ -9,6 +9,7 @@ differs from every genuine one was accepted" to an explicit primitive-level even
 -/
 import RtcModel.Srtp
 import RtcModel.Lemmas.SrtpSess
+import RtcModel.Lemmas.SrtpToy
 
 namespace RtcModel.Theorems.C05
 open RtcModel.Srtp RtcModel.C04 RtcModel.Generated
@@ -353,22 +354,6 @@ theorem rejected_packets_are_invisible (S : Suite) (ops : List Op) (s : Sess) :
       rw [← ih (step S s o).2]; rfl
 
 /-! ### non-vacuity: an authentication failure on an existing context at ROC 1 -/
-
-/-- a toy suite whose "MAC" is the last 20 bytes of the message (so it depends on the ROC) -/
-def toySuite : Suite where
-  ks := fun _ _ n => List.replicate n 0
-  ks_len := by intro _ _ n; simp
-  mac := fun _ d => (d.reverse ++ List.replicate 20 0).take 20
-  mac_len := by intro _ d; simp [List.length_take]
-  aeadSeal := fun _ _ _ p => p ++ List.replicate 16 0
-  aeadOpen := fun _ _ _ c => if c.length < 16 then none else some (c.take (c.length - 16))
-  seal_len := by intro _ _ _ p; simp
-  open_seal := by intro _ _ _ p; simp
-  open_len := by
-    intro _ _ _ c p h
-    split at h
-    · simp at h
-    · simp only [Option.some.injEq] at h; subst h; simp [List.length_take]; omega
 
 /-- a receive context at ROC 1 (highest sequence number 200) -/
 def ctxRoc1 : Ctx := ⟨7, .cm80, ⟨[], [], []⟩, ⟨[], [], []⟩, 1, some 200, 5, 0⟩
